@@ -201,6 +201,16 @@ def corpus(seed):
     out.append(('deep:plan-join', 'plan', 'SELECT t.a FROM int1.t1 AS t JOIN int2.t2 AS u ON t.id = u.id WHERE ' + deep_and))
     out.append(('deep:render', 'render', ('SELECT a FROM t WHERE ' + deep_and, 'postgresql')))
     out.append(('deep:parse-nested', 'parse', ('SELECT ' + '(' * 400 + '1' + ')' * 400, 'mysql')))
+    # trees that several threads print / render at once (ONE tree object per round): printing is a function of the tree
+    wide = ', '.join(f'c{j} AS a{j}' for j in range(120))
+    for i, s_ in enumerate([f'SELECT {wide} FROM t1 UNION (SELECT {wide} FROM t2 EXCEPT SELECT {wide} FROM t3)',
+                            f'SELECT a FROM t1 INTERSECT (SELECT a FROM t2 UNION ALL (SELECT {wide} FROM t3 EXCEPT SELECT a FROM t4))',
+                            f'SELECT {wide} FROM t1 AS x RIGHT JOIN t2 AS y ON x.a = y.a WHERE x.b IN (SELECT b FROM u) ORDER BY 1 LIMIT 3',
+                            f'SELECT CASE WHEN a > 1 THEN 2 END AS k, {wide} FROM (SELECT * FROM t) AS s WHERE NOT (a = 1 OR b = 2)',
+                            f"INSERT INTO t (a, b) SELECT {wide} FROM u WHERE c BETWEEN 1 AND 2",
+                            f'SELECT (SELECT max(a) FROM u) AS m, -(-1), {wide} FROM t GROUP BY 1 HAVING count(*) > 1']):
+        out.append((f'shared-print:{i}', 'print-shared', (s_, 'mindsdb')))
+        out.append((f'shared-render:{i}', 'render-shared', (s_, ['postgres', 'mysql', 'sqlite'][i % 3])))
     # prepared statements: the column-discovery steps of joins (order of the steps is part of the result)
     for i, s in enumerate(['SELECT o.id, c.name, p.title FROM int1.orders AS o JOIN int1.customers AS c ON o.cid = c.id JOIN int1.products AS p ON o.pid = p.id WHERE o.id = ?',
                            'SELECT * FROM int1.orders AS o JOIN int1.customers AS c ON o.cid = c.id',
@@ -242,6 +252,14 @@ def call(api, payload, shared=None):
                 return ['ok', SqlalchemyRender(obj).get_string(parse_sql(text, 'mindsdb'))]
             rd = shared['renders'][dialect] if shared and 'renders' in shared else SqlalchemyRender(dialect)
             return ['ok', rd.get_string(parse_sql(text, 'mindsdb'))]
+        if api in ('print-shared', 'render-shared'):
+            from mindsdb_sql.render.sqlalchemy_render import SqlalchemyRender
+            text, dialect = payload
+            # in a shared round every thread is handed the SAME tree object (parsed once); elsewhere the call parses for itself
+            t = shared['trees'][text] if shared and 'trees' in shared else parse_sql(text, 'mindsdb')
+            if api == 'print-shared':
+                return ['ok', t.to_string(), str(t) == t.to_string()]
+            return ['ok', SqlalchemyRender(dialect).get_string(t)]
         if api == 'prepare':
             from mindsdb_sql.planner import QueryPlanner
             from vf.props.c12 import FakeExecutor
@@ -411,6 +429,14 @@ def axis_threads(ctx, items, gold, rounds):
                 pool = [it for it in items if it[1] == 'render']
                 work = [[pool[r.randrange(len(pool))] for _ in range(14)] for _ in range(NTHREADS)]
                 acc.count('focused_rounds_render')
+            elif rnd % 4 == 3:
+                # focused round: every thread prints / renders the same few tree objects (yields inside the tree printers and the renderer)
+                from mindsdb_sql import parse_sql
+                inj.focus = os.sep + 'mindsdb_sql' + os.sep
+                pool = [it for it in items if it[1] in ('print-shared', 'render-shared')]
+                shared['trees'] = {text: parse_sql(text, 'mindsdb') for text in {it[2][0] for it in pool}}
+                work = [[pool[r.randrange(len(pool))] for _ in range(10)] for _ in range(NTHREADS)]
+                acc.count('focused_rounds_shared_trees')
             elif rnd % 2 == 1:
                 # focused round: every thread plans the same models in different versions against ONE shared catalog,
                 # yields only inside the planner
